@@ -730,22 +730,35 @@ inline void enumerate_small(const PropSpec& ps, const Tier& t, int worker, int n
         swept++;
       }
     if (st_out) st_out->subspaces.push_back(std::string("symbol length sweep: ") + (t.thorough ? "every L in 1..65536" : "multiples of 512 +-1 up to 65536 and protocol sizes (1472, 8972, 9000, 12288, 65507, 65535)") + " on " + std::to_string(lc.size()) + " tiny codes with one source and one repair lost: complete");
-    // number of repair symbols (LDPC): every r in 3..2500 (quick) / 3..49999 (thorough) with k = 1, N1 = 3, losing {s0, p0, p1}:
-    // iterative decoding is stuck (every equation keeps two unknowns) and the 3x3 system is solvable
+    // number of repair symbols (LDPC): every r = n-k in 3..8192 (quick) / 3..24999 (thorough) at rate 1/2 (k = r, N1 = 3: no extra
+    // entries, every source in three equations). The lost set is a stopping set read off the reference code: the source s whose
+    // equations x < y < z lie closest together, and the repairs p_x .. p_(z-1). Every equation x..z then keeps two unknowns, so
+    // iterative decoding is stuck, and the sum of equations x..z yields s: of_finish_decoding has to run its ML pass.
     if ((ps.go.codecs & GC_LDPC) && ps.go.finish_mode != 2) {
-      const uint32_t rmax = t.thorough ? 49999 : 2500;
+      const uint32_t rmax = t.thorough ? 24999 : 8192;
+      uint64_t unknowns_sum = 0, cases = 0;
       for (uint32_t r = 3; r <= rmax; r++) {
         if ((idx++ % (uint64_t)nworkers) != (uint64_t)worker) continue;
-        Config c; c.codec = CODEC_LDPC; c.k = 1; c.r = r; c.N1 = 3; c.seed = 1 + r % 5; c.L = 1; c.payload = PAY_RANDOM; c.pseed = r;
+        Config c; c.codec = CODEC_LDPC; c.k = r; c.r = r; c.N1 = 3; c.seed = 1 + r % 5; c.L = 1; c.payload = PAY_RANDOM; c.pseed = r;
+        ref::LdpcCode code = ref::ldpc_build(c.k, c.r, c.N1, c.seed);
+        std::vector<uint32_t> lo(c.k, 0xFFFFFFFFu), hi(c.k, 0);
+        for (uint32_t i = 0; i < c.r; i++) for (uint32_t x : code.row_src[i]) { if (lo[x] == 0xFFFFFFFFu) lo[x] = i; hi[x] = i; }
+        uint32_t best = 0, span = 0xFFFFFFFFu;
+        for (uint32_t x = 0; x < c.k; x++) if (lo[x] != 0xFFFFFFFFu && hi[x] > lo[x] && hi[x] - lo[x] < span) { span = hi[x] - lo[x]; best = x; }
+        if (span == 0xFFFFFFFFu) continue;
+        std::vector<char> lost(c.k + c.r, 0);
+        lost[best] = 1;
+        for (uint32_t j = lo[best]; j < hi[best]; j++) lost[c.k + j] = 1;
         History h; Script sc; sc.cfg = c; sc.role = ROLE_DEC; sc.cbmode = 1;
         Step sp; sp.op = OP_SETPARAMS; sc.steps.push_back(sp);
-        Step a; a.op = OP_AVAIL; for (uint32_t e = 3; e < 1 + r; e++) a.set.push_back(e); sc.steps.push_back(a);
+        Step a; a.op = OP_AVAIL; for (uint32_t e = 0; e < c.k + c.r; e++) if (!lost[e]) a.set.push_back(e); sc.steps.push_back(a);
         Step f; f.op = OP_FINISH; sc.steps.push_back(f);
         h.scripts.push_back(sc);
         if (!one(h)) return;
-        swept++;
+        swept++; cases++; unknowns_sum += span + 1;
       }
-      if (st_out) st_out->subspaces.push_back("repair count sweep (LDPC): every n-k in 3.." + std::to_string(rmax) + " with k=1, N1=3, the source and the first two repairs lost (ML needed, 3x3 system): complete");
+      if (st_out) { st_out->counters["r_sweep_cases"] += cases; st_out->counters["r_sweep_unknowns_total"] += unknowns_sum; }
+      if (st_out) st_out->subspaces.push_back("repair count sweep (LDPC): every n-k in 3.." + std::to_string(rmax) + " with k = n-k, N1=3, and a stopping set built from the reference code lost (a source and the repairs between its first and last equation: iterative decoding stuck, ML needed and sufficient): complete; n-k above " + std::to_string(rmax) + " not swept");
     }
     extra_json = "\"x_axis_sweep_cases_this_worker\":" + std::to_string(swept);
   }
